@@ -318,6 +318,18 @@ def check_one(case, ex, path, I, label, c, res, known_active, confirmed_known, t
                     res['discharged'] += 1
                     res['relaxed'] = res.get('relaxed', 0) + 1
                     return
+        if r == 'unknown' and not isinstance(c, bool):
+            # retry with the equality atoms of the claim cleared of denominators (a stronger claim: `unsat` is still a proof)
+            from engine.pysym import ratform
+            c2 = ratform.strengthen(c)
+            if not z3.eq(c2, c):
+                heavy = getattr(path, 'heavy', None) or {}
+                for pcs in ([path.pc] + ([[a for a in path.pc if a.get_id() not in heavy]] if heavy else [])):
+                    r2, _ = ex.solver_check(pcs + [z3.Not(c2)] + extra, want_model=False)
+                    if r2 == 'unsat':
+                        res['discharged'] += 1
+                        res['relaxed'] = res.get('relaxed', 0) + 1
+                        return
         if r == 'unknown':
             res['inconclusive'].append({'reason': 'solver-unknown', 'label': label})
             return
